@@ -18,7 +18,8 @@ import (
 	"github.com/ipld/go-ipld-prime/zzverif/typed"
 )
 
-var types = []string{"Plain", "OptNull", "Tuple", "Join", "MapSI", "ListS", "UnionK", "UnionKinded", "UnionSP", "Outer"}
+var types = []string{"Plain", "OptNull", "Tuple", "Join", "MapSI", "ListS", "UnionK", "UnionKinded", "UnionSP",
+	"MapSU", "ListU", "MapSP", "ListT", "MapSN", "ListN", "OptComp", "OptMore", "OptOne", "ListOO", "MapOO", "Outer"}
 
 type outcome struct {
 	err      error
@@ -56,16 +57,21 @@ func drive(engine int, name string, tree *refval.V, reprLevel bool) outcome {
 // HLockstep: the same (conforming or mutated) tree into both engines, at representation level
 // and at type level.
 func HLockstep() {
-	name := types[nd.Choose("type", nd.Param("TYPES", len(types)))]
+	ti := nd.Param("T0", 0) + nd.Choose("type", nd.Param("TYPES", len(types))-nd.Param("T0", 0))
+	name := types[ti]
 	t := schemas.ByName(name)
-	g := &refschema.G{}
+	g := &refschema.G{NarrowInts: true}
 	v := g.Gen(t)
 	reprLevel := nd.Choose("level", 2) == 1
 	tree := v
 	if reprLevel {
 		tree = refschema.Repr(t, v)
 	}
-	for i, n := 0, nd.Choose("mutations", nd.Param("MUT", 1)+1); i < n; i++ {
+	nmut := 0
+	if ti < nd.Param("MUTBELOW", len(types)) {
+		nmut = nd.Choose("mutations", nd.Param("MUT", 1)+1)
+	}
+	for i := 0; i < nmut; i++ {
 		tree = g.Mutate(tree)
 	}
 	a := drive(typed.BindExplicit, name, tree, reprLevel)
